@@ -11,8 +11,10 @@ All seams are installed by wrapping — nothing in /repo is modified:
 """
 from __future__ import annotations
 
+import gzip
 import hashlib
 import json
+import lzma
 import os
 import pathlib
 import random
@@ -89,6 +91,7 @@ class World:
         self.rng_read = random.Random('%s:read' % seed)
         self.short_reads = False
         self.shuffle_dirs = False
+        self.cache_pages = random.Random('%s:cache' % seed).choice([0, 0, 1, 2, 8])
         self.recording = False
         self.node('primary')
         self.use('primary')
@@ -152,6 +155,8 @@ class World:
         wn._db.sqlite3 = _Sqlite3Shim()
         wn._add.BATCH_SIZE = _DEFAULT_BATCH
         wn.lmf.open = _sim_open
+        wn.project.gzip = _StreamShim(gzip)
+        wn.project.lzma = _StreamShim(lzma)
         pathlib.Path.iterdir = _sim_iterdir
 
     def close(self):
@@ -160,6 +165,8 @@ class World:
         wn._add.BATCH_SIZE = _DEFAULT_BATCH
         if 'open' in vars(wn.lmf):
             del wn.lmf.open
+        wn.project.gzip = gzip
+        wn.project.lzma = lzma
         pathlib.Path.iterdir = _real_iterdir
         World.current = None
         shutil.rmtree(self.root, ignore_errors=True)
@@ -326,7 +333,13 @@ class _Sqlite3Shim:
     def connect(self, *args, **kwargs):
         kwargs['factory'] = SimConnection
         kwargs.setdefault('timeout', 0)
-        return _real_sqlite3_connect(*args, **kwargs)
+        conn = _real_sqlite3_connect(*args, **kwargs)
+        w = World.current
+        if w is not None and w.cache_pages:
+            # tuning knob of the storage engine: a page cache small enough for write
+            # transactions to spill to the database file before they commit or roll back
+            conn.execute('PRAGMA cache_size = %d' % w.cache_pages)
+        return conn
 
 
 # -- progress-handler seam -----------------------------------------------------------------------
@@ -381,6 +394,24 @@ class _ShortReader:
 
     def __iter__(self):
         return iter(self._fh)
+
+
+class _StreamShim:
+    """Stands in for the gzip / lzma module inside wn.project: decompressed streams deliver
+    short reads too (POSIX and the stream classes allow fewer bytes than requested)."""
+
+    def __init__(self, mod):
+        self._mod = mod
+
+    def __getattr__(self, name):
+        return getattr(self._mod, name)
+
+    def open(self, *args, **kwargs):
+        fh = self._mod.open(*args, **kwargs)
+        w = World.current
+        if w is not None and w.short_reads:
+            return _ShortReader(fh, w.rng_read)
+        return fh
 
 
 def _sim_open(file, mode='r', *args, **kwargs):
